@@ -14,8 +14,10 @@ in `Props/C13Pins.lean` as change detectors: its input/output behaviour is compa
 The extractor (`tools/factgen/c13.go`) works on the normalised AST (package constants inlined, literal
 concatenations folded, `switch` rewritten to if-chains), names variables by role (`recv`, `p0`, `p1`, …,
 `copy` for `v := *x`, `call:<callee>` for a variable assigned from a call) and follows calls into functions of
-the same package with the callee's parameters bound to the roles of the arguments — so the facts below do not
-change under renamed locals, extracted/inlined helpers, named constants or if ↔ switch.
+the same package with the callee's parameters bound to the roles of the arguments, and treats a local pointer
+assigned from a fresh `&T{…}` and then stored into a field as an alias of that field (a name that aliased the field's
+previous value goes stale) — so the facts below do not change under renamed locals or parameters, extracted/inlined
+helpers, named constants, if ↔ switch, or filling in the new URL through a local pointer.
 -/
 namespace Fabio.Props.C13Facts
 open Fabio Fabio.Model.C13 Fabio.Generated.C13
